@@ -25,7 +25,7 @@ from ..ir import E, AnalysisError
 from .. import q
 
 TITLE = 'isochronous IN: requested bytes per frame, PID sequence, ZLP'
-FLOOR = 40
+FLOOR = 55
 DECIDES = ('For USBIsochronousStreamInEndpoint (anchor) and USBIsochronousInEndpoint (memory variant, same mechanism; all '
            'clauses except the stream ones), each for several (endpoint_number, max_packet_size): '
            '(a) frame latch [B]: while waiting, new_frame loads the remaining-bytes counter with bytes_in_frame, the '
@@ -48,13 +48,14 @@ DECIDES = ('For USBIsochronousStreamInEndpoint (anchor) and USBIsochronousInEndp
            '(e) stream [B]: payload = stream.payload if stream.valid else 0; stream.valid & stream.ready <=> a data byte '
            'is accepted (tx.valid & tx.ready in the data state) -- every stream byte is sent once, in order, none is '
            'consumed while waiting / sending a ZLP (memory variant: payload = value); '
-           '(f) widths [A]: bytes_in_frame holds 3*mps, the remaining counter is as wide, the budget holds mps. ')
+           '(f) widths [A]: bytes_in_frame and the remaining counter hold 3*mps, the budget holds mps, tx_pid_toggle is 2 bit. ')
 NOT_DECIDED = ('behaviour when new_frame arrives during a transmission or together with the response strobe (excluded by the '
                'bus protocol, assumed); that the host issues enough IN tokens; the PID of a frame given more than 3*mps bytes; '
                'stream.ready while stream.valid is low (irrelevant under the valid/ready contract: the code raises it while '
                'zero-filling, which consumes nothing); address/next_address of the memory variant and tx_cnt/frame_finished/'
                'data_requested of the stream variant; the PID multiplexer of USBEndpointMultiplexer; the region abstraction '
-               'treats wide combinational intermediates as unbounded integers (no truncation).')
+               'treats wide combinational intermediates as unbounded integers (no truncation); max_packet_size < 8 (the packet '
+               'budget would be a <= 3 bit register, which the abstraction keeps concrete: such a configuration is an ANALYSIS-ERROR).')
 
 TX = 'self.interface.tx.'
 TOK = 'self.interface.tokenizer.'
@@ -163,13 +164,16 @@ class Model:
                 return r
         raise AnalysisError('%d outside %s in %s' % (v, name, self.label))
 
-    def support(self, roots):
+    def support(self, roots, through_regs=True):
+        """Signals the roots depend on (through_regs=False: within one cycle, i.e. registers are leaves)."""
         seen, work = set(), list(roots)
         while work:
             s = work.pop()
             if s in seen:
                 continue
             seen.add(s)
+            if not through_regs and s in self.reg_names:
+                continue
             for a in self.drv.get(s, ()):
                 if isinstance(a.rhs, E):
                     work.extend(a.rhs.sigs())
@@ -402,13 +406,14 @@ class Cyc:
         """tx_pid_toggle in the next cycle: the same combinational function on the next FSM state and register values."""
         m = self.m
         asg = {}
-        for r in m.support([PIDOUT]) & m.reg_names:
+        for r in m.support([PIDOUT], False) & m.reg_names:
             v = self.nxt(r)
             if isinstance(v, Lin) or not m.small(r):
                 raise AnalysisError('tx_pid_toggle depends on the wide register %s in %s' % (r, m.label))
             asg[r] = v
+        ns = self.next_state()
         try:
-            v = Cyc(m, self.next_state(), asg).val(PIDOUT)
+            v = Cyc(m, ns, asg).val(PIDOUT)
         except NeedAtom as n:
             raise AnalysisError('tx_pid_toggle of %s is not a function of registered state (reads %s)' % (m.label, n.name))
         if isinstance(v, Lin):
@@ -498,10 +503,14 @@ def analyse(ctx, ir, cls, ep, mps, stream, T, rec):
     rem_c = [r for r in wide if any(isinstance(a.rhs, E) and REQ in a.rhs.sigs() for a in m.drv[r])]
     ctx.need(len(rem_c) == 1, 'exactly one counter loaded from bytes_in_frame in %s (found %s)' % (label, rem_c))
     REM = rem_c[0]
-    pk_c = [r for r in wide if r != REM and r in m.support([TXL])]
-    ctx.need(len(pk_c) == 1, 'exactly one packet-budget counter feeding tx.last in %s (found %s)' % (label, pk_c))
+    # the packet budget: the wide register that is (re)loaded with the constant max_packet_size
+    pk_c = sorted(r for r in m.reg_names if r != REM and not m.small(r)
+                  and any(isinstance(a.rhs, E) and a.rhs.op == 'const' and a.rhs.val == mps for a in m.drv[r]))
+    ctx.need(len(pk_c) == 1, 'exactly one packet-budget counter reloaded with max_packet_size in %s (found %s)' % (label, pk_c))
     PK = pk_c[0]
-    ctx.need(set(wide) == {REM, PK}, 'no further wide register steers the transmission in %s (%s)' % (label, wide))
+    if PK not in regs:
+        regs = sorted(regs + [PK])
+    ctx.need(set(wide) <= {REM, PK}, 'no further wide register steers the transmission in %s (%s)' % (label, wide))
     WAIT = fsm.init
     ctx.need(WAIT is not None and len(fsm.states) >= 2, 'FSM of %s' % label)
     for name, ts in ((REM, (0, 1)), (PK, (0, 1, mps)), (REQ, (0, mps, 2 * mps, 3 * mps)), (EPN, (ep,))):
@@ -526,9 +535,9 @@ def analyse(ctx, ir, cls, ep, mps, stream, T, rec):
     wq, wr, wp, wo = m.width(REQ), m.width(REM), m.width(PK), m.width(PIDOUT)
     loc_of = lambda n: getattr(ir.signals.get(n), 'loc', None)
     rec.chk('C15.width', 'request', (1 << wq) - 1 >= 3 * mps, msg='bytes_in_frame (%d bit) cannot express 3*max_packet_size = %d' % (wq, 3 * mps))
-    rec.chk('C15.width', 'remaining', wr >= wq, msg='remaining-bytes counter %s (%d bit) is narrower than bytes_in_frame (%d bit)' % (REM, wr, wq))
+    rec.chk('C15.width', 'remaining', (1 << wr) - 1 >= 3 * mps, msg='remaining-bytes counter %s (%d bit) cannot hold 3*max_packet_size = %d' % (REM, wr, 3 * mps))
     rec.chk('C15.width', 'packet-budget', (1 << wp) - 1 >= mps, msg='packet-budget counter %s (%d bit) cannot hold max_packet_size %d' % (PK, wp, mps))
-    pidregs = sorted(m.support([PIDOUT]) & m.reg_names)
+    pidregs = sorted(m.support([PIDOUT], False) & m.reg_names)
     rec.chk('C15.width', 'pid', wo == 2 and pidregs and all(m.width(r) >= 2 for r in pidregs),
             msg='tx_pid_toggle is %d bit, driven from %s' % (wo, [(r, m.width(r)) for r in pidregs]))
 
@@ -570,13 +579,13 @@ def analyse(ctx, ir, cls, ep, mps, stream, T, rec):
                     ok = ns != WAIT and f2 == 1
                     rec.chk('C15.answer-data', 'fsm', ok, c, '$fsm' if ns == WAIT else TXF,
                             lambda: 'an IN token with bytes left must start a data packet (leave the waiting state with first=1); next state %s, first=%s' % (ns, show(f2)))
-                    if ok:
+                    if ns != WAIT:
                         dsts['data'].add(ns)
                 else:
                     ok = ns != WAIT and f2 == 0
                     rec.chk('C15.answer-zlp', 'fsm', ok, c, '$fsm' if ns == WAIT else TXF,
                             lambda: 'an IN token with nothing left to send must be answered with a zero-length packet (leave the waiting state with first=0); next state %s, first=%s' % (ns, show(f2)))
-                    if ok:
+                    if ns != WAIT:
                         dsts['zlp'].add(ns)
         return ns
 
@@ -676,15 +685,25 @@ def analyse(ctx, ir, cls, ep, mps, stream, T, rec):
             spans.append((lo_, hi_))
         return [r for r in m.regions(name) if any(r[0] <= b and a <= r[1] for a, b in spans)]
 
+    cur = [None]
+
+    def path(a):
+        out = []
+        while a is not None:
+            out.append('%s(%s)' % (a[0], ','.join(show(v) for _, v in a[1])))
+            a = pred.get(a)
+        return 'abstract path over (%s): ' % ','.join(regs) + ' <- '.join(out[:6]) + (' <- ...' if len(out) > 6 else '')
+
     def f_fix(c):
         st = c.state
         if st == WAIT:
             if c.raw(NF) and request(c):
                 return None
-        p = pid_now(c)
-        rec.chk('C15.pid-floor', 'tx_pid_toggle', p in (0, 1, 2), c, None,
-                lambda: 'tx_pid_toggle = %s is reachable: after the DATA0 packet of a frame the PID must not step below DATA0 '
-                        '(a further IN token, e.g. after a missed SOF, is then answered with a ZLP carrying that PID)' % PIDNAME.get(p, p))
+        p, p2 = pid_now(c), c.pid_next()
+        rec.chk('C15.pid-floor', 'tx_pid_toggle', p2 in (0, 1, 2) or p not in (0, 1, 2), c, pidregs[0] if pidregs else None,
+                lambda: 'tx_pid_toggle steps %s -> %s on a reachable transition (%s): the PID must not step below DATA0 -- a further IN '
+                        'token before the next new_frame (e.g. the SOF was lost) is answered with a ZLP carrying that PID' % (
+                            PIDNAME.get(p, p), PIDNAME.get(p2, p2), path(cur[0])))
         if st == D:
             rec.chk('C15.inv-nonzero', 'data-state', c.region(REM)[0] >= 1 and c.region(PK)[0] >= 1, c, None,
                     lambda: 'the data state is reachable with remaining=%s, packet budget=%s: a counter at 0 wraps and the packet '
@@ -702,10 +721,15 @@ def analyse(ctx, ir, cls, ep, mps, stream, T, rec):
                             'min(remaining, max_packet_size)' % (show(k2), show(c.region(PK))))
         return ns, nxt
 
+    if D is None or Z is None:
+        return 0                                          # the answer obligations failed; the invariants are reported as not evaluated
     init = (WAIT, tuple((r, m.init(r) if m.small(r) else m.region_of(r, m.init(r))) for r in regs))
-    seen, work = {init}, [init]
+    p0 = Cyc(m, WAIT, dict(init[1])).val(PIDOUT)
+    rec.chk('C15.pid-floor', 'tx_pid_toggle', p0 in (0, 1, 2), msg='tx_pid_toggle is %s after reset' % PIDNAME.get(p0, p0))
+    seen, work, pred = {init}, [init], {init: None}
     while work:
-        st, rv = work.pop()
+        cur[0] = work.pop()
+        st, rv = cur[0]
         if st not in (WAIT, D, Z):
             raise AnalysisError('state %s of %s is reachable but has no role (waiting / data / ZLP)' % (st, label))
         base = dict(rv)
@@ -722,6 +746,7 @@ def analyse(ctx, ir, cls, ep, mps, stream, T, rec):
                 a = (ns, s)
                 if a not in seen:
                     seen.add(a)
+                    pred[a] = cur[0]
                     work.append(a)
             if len(seen) > 20000:
                 raise AnalysisError('abstract state explosion in %s' % label)
@@ -741,14 +766,29 @@ def check_class(ctx, clsname, mod, short, stream, ep, mps):
     else:
         raise AnalysisError('region partition of %s does not stabilise' % clsname)
     tag = '[ep%d,mps%d]' % (ep, mps)
-    for rule, key in EXPECT_COMMON + (EXPECT_STREAM if stream else []):
-        cnt, fail, loc = rec.d.get((rule, key), (0, None, None))
-        if cnt == 0:
-            fail = fail or 'no instance could be evaluated (the answering / data / ZLP state was not identified, see the other violations)'
-        ctx.ob(rule, '%s.%s%s' % (short, key, tag), fail is None, loc, fail or 'holds on %d evaluations' % cnt)
     for (rule, key) in rec.order:
         ctx.need((rule, key) in EXPECT_COMMON + EXPECT_STREAM, 'obligation %s %s is listed' % (rule, key))
     ctx.note('%s%s: %d reachable abstract states; region boundaries %s' % (short, tag, n, {k: sorted(v) for k, v in sorted(T.items())}))
+    return tag, rec
+
+
+def check_configs(ctx, clsname, mod, short, stream, configs):
+    """One obligation per (rule, role) of the class: it must hold for every configuration (keys do not depend on the tier)."""
+    results = [check_class(ctx, clsname, mod, short, stream, ep, mps) for ep, mps in configs]
+    for rule, key in EXPECT_COMMON + (EXPECT_STREAM if stream else []):
+        total, bad, loc = 0, [], None
+        for tag, rec in results:
+            cnt, fail, l = rec.d.get((rule, key), (0, None, None))
+            total += cnt
+            if cnt == 0:
+                fail = fail or 'no instance could be evaluated (the answering / data / ZLP state was not identified, see the other violations)'
+            if fail is not None:
+                bad.append((tag, fail))
+                loc = loc or l
+        msg = 'holds on %d evaluations over %d configurations' % (total, len(results))
+        if bad:
+            msg = '%s %s' % (bad[0][0], bad[0][1]) + ('' if len(bad) == 1 else '  (also fails for %s)' % ' '.join(t for t, _ in bad[1:]))
+        ctx.ob(rule, '%s.%s' % (short, key), not bad, loc, msg)
 
 
 def check_pid_path(ctx):
@@ -771,10 +811,8 @@ def run(ctx):
     quick_s = [(1, 512), (3, 1024)]
     quick_m = [(1, 512)]
     if ctx.tier == 'thorough':
-        quick_s += [(1, 64), (15, 512), (0, 1024), (7, 1023), (2, 1), (3, 2), (4, 8), (9, 200)]
-        quick_m += [(3, 1024), (1, 64), (15, 8), (2, 1), (5, 1023)]
-    for ep, mps in quick_s:
-        check_class(ctx, 'USBIsochronousStreamInEndpoint', 'isochronous_stream_in', 'IsoStreamIn', True, ep, mps)
-    for ep, mps in quick_m:
-        check_class(ctx, 'USBIsochronousInEndpoint', 'endpoints.isochronous', 'IsoMemIn', False, ep, mps)
+        quick_s += [(1, 64), (15, 512), (0, 1024), (7, 1023), (2, 8), (3, 16), (4, 9), (9, 200)]
+        quick_m += [(3, 1024), (1, 64), (15, 8), (2, 16), (5, 1023)]
+    check_configs(ctx, 'USBIsochronousStreamInEndpoint', 'isochronous_stream_in', 'IsoStreamIn', True, quick_s)
+    check_configs(ctx, 'USBIsochronousInEndpoint', 'endpoints.isochronous', 'IsoMemIn', False, quick_m)
     check_pid_path(ctx)
